@@ -300,11 +300,11 @@ Proof.
 Qed.
 
 Lemma word_good r (w : list byte) (v : json) : ok r -> pr r ->
-  good (vl r - 1) (let '(ok, r') := read_word w r in ((if ok then POk v else PErr), r')).
+  good (vl r - 1) (let '(b, r') := read_word w r in ((if b then POk v else PErr), r')).
 Proof.
   intros Hok Hp. destruct (read_word_le w r Hok Hp) as [H1 H2].
-  destruct (read_word w r) as [ok r']. cbn [snd] in H1, H2.
-  destruct ok; [apply good_ok|apply good_err]; assumption.
+  destruct (read_word w r) as [b r']. cbn [snd] in H1, H2.
+  destruct b; [apply good_ok|apply good_err]; assumption.
 Qed.
 
 (* ================= strings ================= *)
@@ -695,6 +695,15 @@ Proof. exact (parse_progress_gen rd_inv rd_inv_reader_inv). Qed.
 Theorem parse_rd_inv : forall r, rd_inv r -> rd_inv (snd (next_json_value r)).
 Proof. intros r Hok. exact (proj1 (proj2 (next_json_value_total_gen rd_inv rd_inv_reader_inv r Hok))). Qed.
 
+(* the string loop's own fuel, `S (length (rest r))`, is enough as well (called with the opening
+   quote as current byte) *)
+Theorem read_string_no_fuel : forall r b, rd_inv r -> cur r = Some b -> fst (read_string r) <> PFuel.
+Proof.
+  intros r b Hok Hc.
+  assert (Hp : pr r) by (unfold pr, view; rewrite Hc; reflexivity).
+  exact (proj1 (read_string_good rd_inv rd_inv_reader_inv r Hok Hp)).
+Qed.
+
 (* here the view is the bytes before the first read error: a read error ends the input *)
 Theorem parse_eof_ev : forall r r', rd_inv r -> next_json_value r = (PEof, r') ->
   view r' = [] /\ ws_ok (view r) /\ rd_inv r'.
@@ -725,3 +734,4 @@ Print Assumptions values_of_bytes_count.
 Print Assumptions parse_no_fuel_ev.
 Print Assumptions parse_progress_ev.
 Print Assumptions read_all_fuel_ev.
+Print Assumptions read_string_no_fuel.
